@@ -305,3 +305,113 @@ def _mk_pipeline(family):
 
 for _f in ('http', 'json', 'soap11', 'xml'):
     _mk_pipeline(_f)
+
+
+# ------------------------------------------------------------------------------------------ URL patterns
+
+def _pattern_app():
+    from spyne.protocol.http import HttpRpc, HttpPattern
+    from spyne.protocol.json import JsonDocument
+    from spyne.server.wsgi import WsgiApplication
+    ran = []
+
+    class PSvc(ServiceBase):
+        @rpc(Integer, _returns=Integer, _patterns=[HttpPattern('/v1/close', verb='GET')])
+        def close(ctx, i):
+            ran.append('close')
+            return 1
+
+        @rpc(Integer, _returns=Integer, _patterns=[HttpPattern('/v1/closed/down')])
+        def closed_down(ctx, i):
+            ran.append('closed_down')
+            return 2
+
+        @rpc(Integer, _returns=Integer, _patterns=[HttpPattern('/v1/item/<i>')])
+        def item(ctx, i):
+            ran.append('item')
+            return 3
+    app = Application([PSvc], TNS, name='PApp', in_protocol=HttpRpc(), out_protocol=JsonDocument())
+    return WsgiApplication(app), ran
+
+
+@obligation('C11.patterns.match_pattern', targets=['spyne.server.http:HttpBase.match_pattern',
+                                                   'spyne.protocol.http:HttpPattern._compile_url_pattern'],
+            desc="for an arbitrary (symbolic) request path and verb: match_pattern selects a method registered with a literal "
+                 "address pattern iff the path equals that address exactly (and the verb equals the registered verb) -- no "
+                 "prefix, no suffix (not even a trailing newline, which '$' would let through), no other case; the regex "
+                 "semantics of re.match / span are the assumed contract of pyvc/regexmodel.py",
+            assumptions=["re.match(p, s) for a literal p succeeds iff s starts with the literal, span = (0, len(literal)); "
+                         "'$' also matches before a final newline (re documentation)"])
+def match_pattern(c):
+    from spyne.context import MethodContext
+    wsgi, ran = _pattern_app()
+    path = c.str('path')
+    verb = c.choose(['GET', 'POST', c.str('verb')], 'verb_kind')
+    ctx = MethodContext(wsgi, MethodContext.SERVER)
+    # the placeholder pattern ('/v1/item/<i>') has a group: its match is decided on concrete probes below
+    pats = [p for p in wsgi._http_patterns if '<' not in p.address]
+    saved = wsgi._http_patterns
+    wsgi._http_patterns = pats
+    try:
+        out = c.run(wsgi.match_pattern, ctx, verb, path, 'h')
+    finally:
+        wsgi._http_patterns = saved
+    c.check('returns', out.returned, detail=repr(out))
+    if not out.returned:
+        return
+    sel = ctx.method_request_string
+    # match_pattern supplies a missing leading slash (PATH_INFO of a WSGI server always has one)
+    at = lambda addr: Or(path == addr, path == addr[1:])
+    is_close = And(at('/v1/close'), verb == 'GET') if not isinstance(verb, str) else (at('/v1/close') if verb == 'GET' else False)
+    is_down = at('/v1/closed/down')
+    if sel is None:
+        c.check('unselected_only_if_no_address_equals_the_path', Not(Or(is_close, is_down)), detail=repr(sel))
+    elif sel.split('}')[-1] == 'close':
+        c.check('close_selected_only_for_its_exact_address_and_verb', is_close, detail=repr(sel))
+    elif sel.split('}')[-1] == 'closed_down':
+        c.check('closed_down_selected_only_for_its_exact_address', is_down, detail=repr(sel))
+    else:
+        c.check('selected_method_is_registered', False, detail=repr(sel))
+
+
+@obligation('C11.patterns.pipeline', targets=['spyne.server.http:HttpBase.match_pattern', 'spyne.protocol.http:HttpRpc.decompose_incoming_envelope'],
+            bounded="24 request paths around three registered address patterns (exact, prefix, suffix, case, extra segment, "
+                    "trailing slash / space / newline / CRLF, placeholder with and without a value, other verb)",
+            desc="through the real pipeline: only the exact registered address (with a placeholder: one path segment) runs its "
+                 "method, exactly once; every near miss runs nothing and is answered with a 4xx client fault")
+def patterns_pipeline(c):
+    import io
+    # expected: the method whose address pattern equals the path (and verb), else -- HttpRpc's plain URL-path naming --
+    # the method named by the last path segment, else nothing
+    PROBES = [('/v1/close', 'GET', 'close'), ('/v1/close', 'DELETE', 'close'), ('/v1/clos', 'GET', None), ('/v1/closed', 'GET', None),
+              ('/v1/close/', 'GET', None), ('/v1/close\n', 'GET', None), ('/v1/close\r\n', 'GET', None), ('/v1/close ', 'GET', None),
+              ('/v1/Close', 'GET', None), ('/V1/close', 'GET', 'close'), ('/x/v1/close', 'GET', 'close'), ('/v1/close/x', 'GET', None),
+              ('/v1/closed/down', 'GET', 'closed_down'), ('/v1/closed/down', 'DELETE', 'closed_down'),
+              ('/v1/closed/down\n', 'GET', None), ('/v1/closed/dow', 'GET', None), ('/v1/closed/closed_down', 'GET', 'closed_down'),
+              ('/v1/item/7', 'GET', 'item'), ('/v1/item/', 'GET', 'item?'), ('/v1/item/7/8', 'GET', None),
+              ('/v1/item/7\n', 'GET', 'item?'), ('/v1/item', 'GET', 'item?'), ('/v1/items/7', 'GET', None), ('/v1/Item', 'GET', None)]
+    path, verb, want = c.choose(PROBES, 'probe')
+    wsgi, ran = _pattern_app()
+    env = {'REQUEST_METHOD': verb, 'PATH_INFO': path, 'QUERY_STRING': 'i=5' if '/item' not in path else '', 'SERVER_NAME': 'h',
+           'SERVER_PORT': '80', 'HTTP_HOST': 'h', 'wsgi.url_scheme': 'http', 'wsgi.input': io.BytesIO(b''),
+           'CONTENT_TYPE': 'text/plain', 'CONTENT_LENGTH': '0'}
+    seen = []
+
+    def sr(status, headers, exc_info=None):
+        seen.append(status)
+    sr._pyvc_native = True
+    out = c.run(wsgi, env, sr)
+    c.check('callable_returns', out.returned, detail=repr(out))
+    if not out.returned:
+        return
+    chunks = []
+    c.run(lambda: chunks.extend(list(out.value)))
+    if want == 'item?':
+        # a placeholder may be empty or hold any text without '/': the method may run (with that text as argument) or the
+        # argument may be rejected -- but no other method runs
+        c.check('only_the_addressed_method', set(ran) <= {'item'}, detail=(path, ran))
+    elif want is None:
+        c.check('near_miss_runs_nothing', ran == [], detail=(path, verb, ran))
+        c.check('near_miss_4xx', bool(seen) and seen[0][:1] == '4', detail=(path, seen, b''.join(chunks)[:200]))
+    else:
+        c.check('addressed_method_runs_once', ran == [want], detail=(path, verb, ran, seen, b''.join(chunks)[:200]))
